@@ -38,6 +38,9 @@ def judgeC09 : P Verdict := do
   if rerooted then tag "rerooted"
   let orph : Nat := if rerooted then 1 else 0
   let td ← pTree
+  -- `start i`: the generator was created with `PolyhedraGen::with_root(tree, i)` for a node below the root
+  let start ← (do if (← peek?) == some "start" then let _ ← tok; pure (some (← pNat)) else pure none)
+  if start.isSome then tag "inner-start"
   let skl ← pNatList
   let pre ← pNat
   if pre > 0 then tag "pre-skip"
@@ -56,7 +59,14 @@ def judgeC09 : P Verdict := do
   let some cnt := first.toNat? | throw "bad count"
   let rows ← pMany cnt pRegRow
   -- property: stream = reference (pre-order with skips, closed path half-spaces, once per node)
-  let ref := (regionsSkipT sk t 0 0 [] 0).1
+  -- started below the root: the sub-tree of the start node, the conditions begin with the edge into it
+  let (sub, prefix0) : PT Q × List (Aff Q) := match start with
+    | none => (t, [])
+    | some i =>
+      match t.find? i, t.parentOf? i with
+      | some st, some (p, l) => (st, match t.find? p with | some pn => [halfspace pn.val.aff l] | none => [])
+      | _, _ => (t, [])
+  let ref := (regionsSkipT sk sub 0 0 prefix0 0).1
   if rows.length != ref.length then
     return .propfail s!"[C09] polyhedra() with skips {skl}: {rows.length} items reported, {ref.length} expected"
   for (r, (it, path)) in rows.zip ref do
@@ -65,7 +75,7 @@ def judgeC09 : P Verdict := do
     if !regionEq r.polys path then
       return .propfail s!"[C09] polyhedra(): node {r.idx}: reported path conditions {r.polys.map showAff} differ from the path {path.map showAff}"
   -- correspondence with the machine
-  let mach := PGen.run t sk (t.size + 2) (PGen.skipN pre (PGen.new t)) 0
+  let mach := PGen.run t sk (t.size + 2) (PGen.skipN pre (⟨[], Dfs.new t sub, 0⟩ : PGen Q)) 0
   if mach.length != rows.length || !(rows.zip mach).all (fun (r, (it, ps)) =>
       r.depth == it.depth && r.idx == it.idx && r.nrem == it.nrem && regionEq r.polys ps) then
     return .diverge "polyhedra(): machine model and implementation streams differ"
